@@ -208,7 +208,7 @@ def gen_aimed_case(rng, force_dir=None):
     the random stream missed); amounts, calendars, clock, bound and root order stay random."""
     c = gen_case(rng, force_dir)
     fwd = c['dir'] == 'fwd'
-    kind = rng.choice(['sideways', 'sideways', 'staggered'] if fwd else ['sideways'])
+    kind = rng.choice(['sideways', 'sideways', 'staggered', 'milestone-summary'] if fwd else ['sideways', 'sideways', 'milestone-summary'])
     c['aimed'] = kind
     c['edit_calendars'] = []
     c['edit_same_scheduler'] = False
@@ -264,6 +264,34 @@ def gen_aimed_case(rng, force_dir=None):
             links.append([t_(base['F']), t_(A2)] if fwd else [t_(A2), t_(base['F'])])
         if rng.random() < 0.3:
             links = [l for l in links if l[0] != t_(D) and l[1] != t_(D)] or links     # without the sideways entry
+        c['tasks'], c['links'] = out, links
+    elif kind == 'milestone-summary':
+        # a summary S that takes part in a dependency (backward: A -> S, forward: S -> A) and holds a MILESTONE whose
+        # date lies outside the span of S's working children, because the milestone is tied to a long task P outside S
+        # (backward: K -> P pulls K early; forward: P -> K pushes K late).  The dates of S must include the milestone:
+        # the dependency on S is inherited by K.
+        blocks = [('A', [T(ids[0], None, resource='b', est=rng.choice([8, 16, 64]))]),
+                  ('S', [T(ids[1], None, resource=None, est=None),
+                         T(ids[2], 0, resource=None, est=None, milestone=True),
+                         T(ids[3], 0, resource=res(), est=rng.choice([8, 16]))]),
+                  ('P', [T(ids[4], None, resource='c', est=rng.choice([200, 320, 400]))])]
+        if rng.random() < 0.5:
+            blocks[1][1].append(T(ids[5], 0, resource=res(), est=rng.choice([8, 32])))
+        if rng.random() < 0.5:
+            blocks[1][1][1], blocks[1][1][2] = blocks[1][1][2], blocks[1][1][1]       # the milestone is not the first child
+        rng.shuffle(blocks)
+        out, base = [], {}
+        for name, blk in blocks:
+            base[name] = len(out)
+            for t in blk:
+                t = dict(t)
+                if t['parent'] is not None:
+                    t['parent'] += base[name]
+                out.append(t)
+        S = base['S']
+        K = [i for i in range(S + 1, len(out)) if out[i]['parent'] == S and out[i]['milestone']][0]
+        A, P = base['A'], base['P']
+        links = [[t_(A), t_(S)], [t_(K), t_(P)]] if not fwd else [[t_(S), t_(A)], [t_(P), t_(K)]]
         c['tasks'], c['links'] = out, links
     else:
         # several tasks of one resource released late (common predecessor on another resource or min_start) and each
